@@ -1396,6 +1396,13 @@ def target_worker_thread(host: str, port: int, shared_aconf: AuditConf) -> Tuple
         SSH1_KexDB.thread_exit()
         SSH2_KexDB.thread_exit()
 
+    # When outputting JSON, the results of all targets are combined into one JSON array, so each target must contribute exactly one JSON value.  Error messages are plain text, so wrap them in an object.
+    if my_aconf.json:
+        try:
+            json.loads(string_output)
+        except ValueError:
+            string_output = json.dumps({'target': '%s:%d' % (host, port), 'error': string_output}, indent=4 if my_aconf.json_print_indent else None, sort_keys=True)
+
     return ret, string_output
 
 
